@@ -68,6 +68,16 @@ func vPattern(name string, maxSeg int, malformed bool) string {
 	return p
 }
 
+// RegisterTagIfNew registers a harness tag unless a configuration is live (then it must exist already).
+func RegisterTagIfNew(name string) *Tag {
+	if t, ok := tagRegistry[name]; ok {
+		return t
+	}
+	t := &Tag{tag: name}
+	tagRegistry[name] = t
+	return t
+}
+
 func vPatternValid(p string) bool {
 	if strings.Contains(p, "*") {
 		return strings.HasSuffix(p, "_*")
@@ -104,6 +114,7 @@ func H_C02_routing() {
 	}
 	vAssume(isValidTag(tagName))
 	tag := RegisterTag(tagName)
+	zz := RegisterTagIfNew("_zz_top")
 	// a second registered tag one segment deeper (prefix relation between registered tags)
 	deepName := tagName + "_a"
 	var deep *Tag
@@ -118,6 +129,7 @@ func H_C02_routing() {
 		Destroy()
 		delete(tagRegistry, tagName)
 		delete(tagRegistry, deepName)
+		delete(tagRegistry, "_zz_top")
 		tag.logger = nil
 		TagAppDef.logger, TagBizDef.logger = nil, nil
 	}()
@@ -139,6 +151,18 @@ func H_C02_routing() {
 				list += ","
 			}
 			list += p
+		}
+		if l == 0 {
+			// the first logger lists a second, constant literal; blanks around list entries are insignificant
+			sep := [2]string{"", " , _zz_top "}[vChoose("second", 2)]
+			if vTier() > 0 {
+				sep = [4]string{"", ",_zz_top", ", _zz_top", " , _zz_top "}[vChoose("secondForm", 4)]
+			}
+			if sep != "" {
+				list += sep
+				pats[l] = append(pats[l], "_zz_top")
+				all = append(all, "_zz_top")
+			}
 		}
 		name := [2]string{"l1", "l2"}[l]
 		cfg["logger."+name+".type"] = "Logger"
@@ -190,7 +214,7 @@ func H_C02_routing() {
 	saved := Stdout
 	sink := &vSink{}
 	Stdout = sink
-	tags := []*Tag{tag, TagAppDef}
+	tags := []*Tag{tag, TagAppDef, zz}
 	if deep != nil {
 		tags = append(tags, deep)
 	}
